@@ -241,6 +241,7 @@ pub fn generate(rng: &mut Rng, holder: usize, palette: &Palette) -> Content {
         weights.push(8); // 20 executable with literal code
         weights.push(8); // 21 executable with imported code
         weights.push(3); // 22 executable with a missing match arm
+        weights.push(5); // 23 executable whose function parameter is annotated by an import
     }
     match rng.weighted(&weights) {
         | 0 => Content::plain(&format!("int{literal}"), &literal.to_string(), Class::Closed),
@@ -337,7 +338,15 @@ pub fn generate(rng: &mut Rng, holder: usize, palette: &Palette) -> Content {
         },
         | 20 => executable(&format!("exec{literal}"), &literal.to_string(), vec![], false),
         | 21 => executable("exec-import", "@[import({0})] _", vec![import_of(rng, holder, palette)], false),
-        | _ => executable(&format!("exec-missing-arm{literal}"), &literal.to_string(), vec![], true),
+        | 22 => executable(&format!("exec-missing-arm{literal}"), &literal.to_string(), vec![], true),
+        | _ => Content {
+            name: "exec-ann-import".into(),
+            template: format!(
+                "begin\n  param ((/core; /representations; /system) : @(import(\"{BUILTIN}\"))) that\n  let (/VType; /Thk; /Ret; /Unit) = core that\n  let (/Scalar = Int64) = representations/i64 that\n  let (/stdio; /process) = system that\n  def ! pick (x : @[import({{0}})] _) : Ret Int64 = ret {literal} that\n  do code <- ! pick 3;\n  ! (stdio/write_line) \"exec-ann-import\" {{ ! (process/exit) code }}\nend\n"
+            ),
+            imports: vec![import_of(rng, holder, palette)],
+            class: Class::Executable,
+        },
     }
 }
 
